@@ -37,6 +37,7 @@ def Op.isMintBurn : Op → Bool
 def Op.isTransfer : Op → Bool
   | .send .. => true
   | .sendU .. => true
+  | .fee .. => true
   | .multi .. => true
   | _ => false
 
